@@ -53,8 +53,9 @@ M = [
   "\t\tif !msg.Is(midi.ChannelMsg) && !msg.Is(midi.SysExMsg) {\n\t\t\treturn\n\t\t}", "\t\tif !msg.Is(midi.ChannelMsg) && !msg.Is(midi.SysExMsg) {\n\t\t\tabsmillisec = absms\n\t\t\treturn\n\t\t}"),
  ("c14-timing-clock-option-also-drops-start", "C14", "drivers/testdrv/driver.go",
   "\t\tif msg.Is(midi.TimingClockMsg) && !conf.TimeCode {", "\t\tif msg.IsOneOf(midi.TimingClockMsg, midi.StartMsg) && !conf.TimeCode {"),
- ("c15-tempo-floor-instead-of-round", "C15", "smf/meta.go",
-  "\tr := uint32(math.Round(bpmFac / bpm))", "\tr := uint32(math.Floor(bpmFac / bpm))"),
+ # precision worse than the field's resolution (floor alone stays within it: see benign b13)
+ ("c15-tempo-two-microseconds-coarse", "C15", "smf/meta.go",
+  "\tr := uint32(math.Round(bpmFac / bpm))", "\tr := uint32(math.Round(bpmFac/bpm/4)) * 4"),
  ("c15-denominator-128", "C15", "smf/helpers.go",
   "\tif bin == 0 {\n\t\treturn 1\n\t}\n\treturn 2 << (bin - 1)", "\tif bin == 0 {\n\t\treturn 1\n\t}\n\tif bin > 6 {\n\t\tbin = 6\n\t}\n\treturn 2 << (bin - 1)"),
  ("c15-minor-flat-keys-rotated", "C15", "internal/utils/utils.go",
